@@ -138,7 +138,7 @@ fn run_isolated_seq(jobs: &[Job]) -> Vec<String> {
             if out.len() == jobs.len() {
                 break;
             }
-            match rx.recv_timeout(Duration::from_secs(10)) {
+            match rx.recv_timeout(Duration::from_secs(30)) {
                 Ok(l) => out.push(l),
                 Err(mpsc::RecvTimeoutError::Timeout) => {
                     let _ = child.kill();
